@@ -24,6 +24,7 @@ def run(ctx):
                             'versions 2.0 / 3.0); distinct by dumped text; a grid is non-trivial when it holds a non-null value')
     gs = [codec.gen_grid(rng, rng.choice(['2.0', '3.0', '3.0']), depth=rng.choice([0, 1, 2, 3])) for _ in range(n)]
     gs += codec.zone_sweep_grids(rng)        # one date-time in every mapped zone
+    gs += codec.reserved_tag_grids(flat=True)         # dict values whose tags are the names of the JSON grid encoding (meta, cols, rows)
     answers = zincsim.model_zdump(ctx, gs)
     seen = set()
     corr = False
@@ -55,6 +56,57 @@ def run(ctx):
         ctx.coverage['traces_validated_against_impl'] += 1
         if len(txt) > 30:
             seen.add(txt)
+    # date-times whose tzinfo is not one of the mapped zones (fixed offsets), at wall-clock times that zones with that standard
+    # offset skip or repeat: the writer has to name a zone, and the document must be consistent - the zone it names has the
+    # written offset at the written instant (or the writer refuses with ValueError)
+    import datetime
+    import pytz
+    from hszinc import zoneinfo as _zi
+    tzmap = sorted(_zi.get_tz_map().items())
+    olson_of = dict(tzmap)
+    fcases = []
+    for hay, olson in tzmap:
+        tz = pytz.timezone(olson)
+        tts = [(t, i) for t, i in zip(getattr(tz, '_utc_transition_times', []), getattr(tz, '_transition_info', [])) if 1990 <= t.year <= 2030]
+        for (t, info), (tprev, iprev) in list(zip(tts[1:], tts[:-1]))[-(6 if thorough else 2):]:
+            o_before, o_after = iprev[0], info[0]
+            lo, hi = sorted([t + o_before, t + o_after])
+            mid = (lo + (hi - lo) / 2).replace(microsecond=0)
+            for off in (o_before, o_after):
+                if off.total_seconds() % 60 == 0:
+                    fcases.append(mid.replace(tzinfo=datetime.timezone(off)))
+    fcases = list(dict.fromkeys(fcases))
+    for dt in fcases:
+        ctx.coverage['evaluations'] += 1
+        ctx.count('foreign-tzinfo-datetime')
+        rep = {'value': dt.isoformat(), 'python': 'hszinc.dump_scalar(datetime.fromisoformat(%r))' % dt.isoformat()}
+        try:
+            txt = h.dump_scalar(dt)
+        except ValueError:
+            ctx.count('foreign-tzinfo-datetime:refused')
+            continue
+        except Exception as e:  # noqa
+            ctx.violation('impl-counterexample', 'writing the date-time %s raised %s' % (dt.isoformat(), type(e).__name__), rep)
+            return
+        try:
+            back = zincspec.read_scalar(txt, False)
+        except (zincspec.ZincSpecError, ValueError) as e:
+            ctx.violation('impl-counterexample', 'the independent reader rejects the date-time %r: %s' % (txt, e), dict(rep, dumped=txt))
+            return
+        inst = dt.astimezone(datetime.timezone.utc)
+        if back[0] != 'dt-spec' or datetime.datetime.fromisoformat(back[1]) != inst or back[2] != int(dt.utcoffset().total_seconds()):
+            ctx.violation('impl-counterexample', 'the date-time %s was written as %r, which denotes %r' % (dt.isoformat(), txt, back), dict(rep, dumped=txt))
+            return
+        zone = back[3]
+        if zone is not None and zone != 'UTC':
+            if zone not in olson_of:
+                ctx.violation('impl-counterexample', 'the date-time %s was written with the zone %r, which is not a Haystack zone' % (dt.isoformat(), zone), dict(rep, dumped=txt))
+                return
+            zoff = int(inst.astimezone(pytz.timezone(olson_of[zone])).utcoffset().total_seconds())
+            if zoff != back[2]:
+                ctx.violation('impl-counterexample', 'the date-time %s was written as %r: zone %s has the offset %d s at that instant, the text says %d s'
+                              % (dt.isoformat(), txt, zone, zoff, back[2]), dict(rep, dumped=txt))
+                return
     ctx.sample({'dumped': sorted(seen, key=len)[len(seen) // 2][:1500] if seen else ''})
     ctx.coverage['distinct_nontrivial'] = len(seen)
 
